@@ -255,6 +255,37 @@ theorem delivers_sampleset (rows : List (List R)) (labels : List Label) (hnd : l
   rw [this] at hv'
   exact hv'
 
+theorem delivers_labelled (rows : List (List R)) (labels : List Label) (hnd : labels.Nodup)
+    (hne : rows.length * widthOf rows ≠ 0) (hrect : ∀ row ∈ rows, row.length = labels.length) (rs : List (List R)) (ls : List Label)
+    (h : asSamples (.labelled rows labels) = .ok (rs, ls)) : Delivers (.labelled rows labels) rs ls := by
+  obtain ⟨rfl, rfl, _, hv⟩ := asSamples_labelled_values rows labels hnd rs ls hne h
+  refine ⟨by simp [SL.numRows], ?_⟩
+  intro r hr j v hjv
+  have hr' : r < rs.length := by simpa [SL.numRows] using hr
+  have hj : j < ls.length := by
+    rcases Nat.lt_or_ge j ls.length with h | h
+    · exact h
+    · simp [List.getElem?_eq_none h] at hjv
+  have hv' := hv r hr' j hj (by rw [hrect _ (List.getElem_mem hr')]; exact hj)
+  have : ls[j] = v := by simpa [List.getElem?_eq_getElem hj] using hjv
+  rw [this] at hv'
+  exact hv'
+
+theorem delivers_dicts (l : List (List (Label × R))) (hnd : ∀ d ∈ l, (d.map (·.1)).Nodup) (rs : List (List R)) (ls : List Label)
+    (h : asSamples (.dicts l) = .ok (rs, ls)) : Delivers (.dicts l) rs ls := by
+  obtain ⟨hlen, _, hv⟩ := asSamples_dicts_values l rs ls hnd h
+  refine ⟨by simp [SL.numRows, hlen], ?_⟩
+  intro r hr j v hjv
+  have hr' : r < l.length := by simpa [SL.numRows] using hr
+  have hj : j < ls.length := by
+    rcases Nat.lt_or_ge j ls.length with h | h
+    · exact h
+    · simp [List.getElem?_eq_none h] at hjv
+  have hv' := hv r hr' j hj
+  have : ls[j] = v := by simpa [List.getElem?_eq_getElem hj] using hjv
+  rw [this] at hv'
+  exact hv'
+
 theorem dictKeys_of_nodup (labels : List Label) (hnd : labels.Nodup) : dictKeys labels = labels := by
   induction labels with
   | nil => rfl
